@@ -83,6 +83,17 @@ def gen_cases(tier, seed):
             "storage": rnd.choice(["deep", "flat", "gzip", "sharded", "sharded"]),
             "strategy": rnd.choice(["on disk", "in memory"]),
             "vseed": rnd.randrange(2 ** 32)})
+    # directed: default-sized chunks (64), three or more scales, one long axis
+    for k in range(4 if tier == "quick" else 30):
+        size = [rnd.choice([300, 270, 513]), rnd.randint(3, 70), rnd.randint(2, 40)]
+        rnd.shuffle(size)
+        cases.append({"mode": "generated", "size": size,
+                      "resolution": rnd.choice([[1, 1, 1], [1, 1, 2], [2, 1, 1], [1, 4, 4]]),
+                      "target": 64, "max_scales": None,
+                      "method": rnd.choice(["average", "stride"]), "outside": 0.0,
+                      "dtype": rnd.choice(["uint8", "uint16", "float32"]), "channels": 1,
+                      "encoding": "raw", "storage": rnd.choice(["flat", "gzip", "sharded"]),
+                      "strategy": "on disk", "vseed": rnd.randrange(2 ** 32)})
     return cases
 
 
@@ -157,7 +168,8 @@ def run_case(case):
            "transitions_refused": 0, "poisoned_allocations": 0, "runs_without_poison_hit": 0,
            "partial_levels_checked": 0, "fetch_factor_1": 0, "fetch_factor_2": 0,
            "border_chunks": 0, "single_chunk_axis": 0, "storage": {}, "methods": {},
-           "generator_refused": 0, "chunks_written_by_pipeline": 0}
+           "generator_refused": 0, "chunks_written_by_pipeline": 0,
+           "default_chunk_size_three_scales": 0}
     ctx = (f"{case['mode']} size={case['size']} res={case['resolution']} target={case['target']}"
            f" max_scales={case['max_scales']} {case['method']} {case['dtype']}x"
            f"{case['channels']} {case['encoding']} {case['storage']}")
@@ -169,6 +181,8 @@ def run_case(case):
     except Exception as exc:  # noqa: BLE001
         return {"violations": [{"kind": "scale-generator-raised",
                                 "detail": f"{ctx}: {type(exc).__name__}: {exc}"}], "obs": obs}
+    obs["default_chunk_size_three_scales"] = int(case["target"] == 64
+                                                 and len(info["scales"]) >= 3)
     keys = [s["key"] for s in info["scales"]]
     if len(set(keys)) != len(keys):
         obs["generator_refused"] = 1   # duplicate keys: C08's business
@@ -380,5 +394,7 @@ def gates(obs, tier):
         "sharded_storage": obs.get("storage", {}).get("sharded", 0) > 0,
         "refused_transitions_seen": obs.get("transitions_refused", 0) > 0,
         "all_methods": len(obs.get("methods", {})) == 4,
+        "default_chunk_size_with_three_scales": obs.get(
+            "default_chunk_size_three_scales", 0) > 0,
         "downscale_contract_evaluated": ce.get("downscale", 0) > 1000,
     }
